@@ -254,3 +254,63 @@ def compile_cases(ck, specs, tag="cf"):
         else:
             other.append(blk.strip())
     return fs.rc, per, other
+
+
+# ------------------------------------------------------------------------------------------------
+# The repository's own interfaces (tests, bench, fuzz targets) as additional witnesses: declarations are read from the
+# attribute text of the source files ("cover what the build covers"); the emitted trie comes from the `tgt` fact set.
+def repo_interfaces():
+    """-> list of dicts(file, type, flags, decls[{cmd, fn}])"""
+    import re
+    out = []
+    root = facts.REPO
+    files = []
+    for sub in ("microscpi/tests", "microscpi/benches", "microscpi/fuzz/fuzz_targets"):
+        d = os.path.join(root, sub)
+        if os.path.isdir(d):
+            files += [os.path.join(d, f) for f in sorted(os.listdir(d)) if f.endswith(".rs")]
+    for fpath in files:
+        src = open(fpath).read()
+        for m in re.finditer(r"#\[(?:\w+::)*interface(?:\(([^)]*)\))?\]\s*impl(?:<[^>]*>)?\s+([\w:<>]+)\s*\{", src):
+            flags = [f.strip() for f in (m.group(1) or "").split(",") if f.strip()]
+            # body of the impl block by brace matching
+            i = m.end()
+            depth = 1
+            j = i
+            while j < len(src) and depth:
+                if src[j] == "{":
+                    depth += 1
+                elif src[j] == "}":
+                    depth -= 1
+                j += 1
+            body = src[i:j]
+            decls = []
+            for d in re.finditer(r"#\[scpi\(\s*cmd\s*=\s*\"([^\"]+)\"\s*\)\]\s*(?:pub\s+)?(?:async\s+)?fn\s+(\w+)", body):
+                decls.append({"cmd": d.group(1), "fn": d.group(2), "params": [], "ret": "?", "async": True})
+            out.append({"file": os.path.relpath(fpath, root), "type": m.group(2), "flags": flags, "decls": decls, "mod": os.path.basename(fpath)[:-3]})
+    return out
+
+
+class RepoIface(Iface):
+    """An interface of one of the repository's own targets, located in a `tgt` fact file by its Self type."""
+
+    def __init__(self, crate, spec):
+        self.spec = spec
+        self.crate = crate
+        self.root_fn = None
+        self.exec_fn = None
+        ty = spec["type"]
+        for b in crate.facts["bodies"]:
+            if b.get("trait") == "microscpi::interface::Interface" and b.get("self_ty", "").split("::")[-1] == ty:
+                if b.get("name") == "root_node":
+                    self.root_fn = b
+                elif b.get("name") == "execute_command":
+                    self.exec_fn = b
+        self.mod = None
+        self.statics = {}
+        rs = self.root_static()
+        if rs:
+            self.mod = rs.rsplit("::", 1)[0]
+            for b in crate.facts["bodies"]:
+                if b["kind"].startswith("Static") and b["def"].startswith(self.mod + "::SCPI_NODE_"):
+                    self.statics[b["def"]] = b
